@@ -123,7 +123,7 @@ CHECKS = {
              "E and F lines; and that Gfa.validate runs the four structural "
              "validators plus rGFA validation exactly for the rgfa dialect and "
              "is called by Gfa()/read_file at vlevel >= 1. " 
-             "Also decided: the dispatch table of Alignment._from_string over the first non-digit character, with the version and valid flags forwarded to the CIGAR parser. The S-line syntax sniffing counts every grammar-valid tag as a tag and a tag-shaped name as a name; `$` on the external coordinates of a fragment is never compared with the segment length. The alignment datatypes validate a decoded CIGAR with the version of the datatype.",
+             "Also decided: the dispatch table of Alignment._from_string over the first non-digit character, with the version and valid flags forwarded to the CIGAR parser. The S-line syntax sniffing counts every grammar-valid tag as a tag and a tag-shaped name as a name; `$` on the external coordinates of a fragment is never compared with the segment length. The alignment datatypes validate a decoded CIGAR with the version of the datatype. The structural validators of Gfa.validate refuse an undefined segment, link or group item wherever it stands and accept a complete graph (interpreted).",
         note="Undecided: acceptance of whole concrete documents; the "
              "hand-written alignment scanner used by alignment_gfa2; JSON "
              "well-formedness (json.loads is a non-regular residual, only its "
@@ -201,7 +201,7 @@ CHECKS = {
              "under a guard; Writer.to_list catches every exception around "
              "each field it encodes; a regular expression is never applied "
              "to the raw identifier of a line that may be unnamed; files "
-             "are decoded inside a handler; the reserved record type. At vlevel 0 set() refuses the name of a member of the line with a library error.",
+             "are decoded inside a handler; the reserved record type. At vlevel 0 set() refuses the name of a member of the line with a library error. map(int/float, text) counts as a conversion of text.",
         note="Undecided: exceptions from values of an unexpected type, text "
              "reaching a primitive through a field of a stored line (the "
              "taint does not follow object fields), RecursionError on deep "
@@ -427,7 +427,7 @@ CHECKS = {
              "build from text is constructed with the Gfa's vlevel, for every "
              "record type and version state (write-time validation at >= 2 is "
              "decided under C20). " 
-             "Also decided: field_to_s validates what it writes exactly at level >= 2 for stored text and for encoded objects (write_threshold); validate_field validates the stored value itself, not a lazily decoded copy; Field._validate_gfa_field hands every class of value to the validator of its datatype (no class is accepted unasked); a tag without recorded datatype, and a tag created with set(), are validated at level 3 as the default datatype of the value. A lazy decode stores its result at every level; every write validates what is stored at the time of that write.",
+             "Also decided: field_to_s validates what it writes exactly at level >= 2 for stored text and for encoded objects (write_threshold); validate_field validates the stored value itself, not a lazily decoded copy; Field._validate_gfa_field hands every class of value to the validator of its datatype (no class is accepted unasked); a tag without recorded datatype, and a tag created with set(), are validated at level 3 as the default datatype of the value. A lazy decode stores its result at every level; every write validates what is stored at the time of that write. json.dumps keeps its ASCII escaping in the J module.",
         note="Undecided: equality of the written text across levels and "
              "monotonic acceptance on concrete documents. " + TRUSTED),
     "C19": dict(
@@ -449,7 +449,7 @@ CHECKS = {
              "forms of both sides (so identifiers equal live references). A "
              "mutable value taking the 'share' action is state shared between "
              "clone and original, hence necessary. " 
-             "Also decided: attributes set only by the construction from text (custom records) reach the clone as new objects; the value classes clone() shares are immutable (no mutating method, no outside assignment); after every history of set / set None / delete / accessor assignment (length <= 3, levels 0-3) that stores a dict or list in a custom tag, clone() does not share it; no function on the decoding path that may return a mutable object is memoised; the dictionary construction clone() uses validates nothing and cannot raise; register_extension lists every declared reference field in REFERENCE_FIELDS. A value class clone() shares has no mutable builtin base.",
+             "Also decided: attributes set only by the construction from text (custom records) reach the clone as new objects; the value classes clone() shares are immutable (no mutating method, no outside assignment); after every history of set / set None / delete / accessor assignment (length <= 3, levels 0-3) that stores a dict or list in a custom tag, clone() does not share it; no function on the decoding path that may return a mutable object is memoised; the dictionary construction clone() uses validates nothing and cannot raise; register_extension lists every declared reference field in REFERENCE_FIELDS. A value class clone() shares has no mutable builtin base. A container copied shallowly shares nothing mutable (its elements are numbers).",
         note="Undecided: aliasing created after cloning, equality on concrete "
              "values. The mutable/immutable classification of value classes "
              "is in spec.py and trusted. " + TRUSTED),
